@@ -137,6 +137,7 @@ def run(rep, tier):
     ]
     cases = build_cases(tier)
     results = common.pmap(run_case, cases, chunk=8)
+    rep.states = len(set(repr((o['argv'], o['emits'])) for o in results))
     for c, o in zip(cases, results):
         rep.evaluations += 1
         rep.transitions += 1
